@@ -274,8 +274,13 @@ def representation(run):
         AB = E2.get(f"{AWQQ}::AWQBitsTensor")
         a = E2.call(AB, [qt, 0, G, tuple(ds), contiguous_strides(ds), codes, sc, zp], {})
         da = E2.call(E2.getattr(a, "dequantize"), [], {})
+        nw = len(E2.writes)
+        own = [v.root() for v in a.fields.values() if isinstance(v, STensor)] + \
+              [v.root() for v in getattr(a.fields.get("_data"), "fields", {}).values() if isinstance(v, STensor)]
         try:
             back = ("value", E2.call(E2.getattr(a, "qbits_tensor"), [], {}))
+            E2.ps["conv_writes"] = [f"{w[0]} into {getattr(w[1], 'name', '?')} at {w[4]}" for w in E2.writes[nw:]
+                                    if w[0] in ("tensor", "tensor-attr") and isinstance(w[1], STensor) and any(w[1].root() is o for o in own)]
             try:
                 back_deq = ("value", E2.call(E2.getattr(back[1], "dequantize"), [], {}))
             except RaiseEx as rx:
@@ -293,6 +298,7 @@ def representation(run):
     if not run.expect_paths(res, "C15/representation", inst):
         return
     rp = lambda m, s: replay_repr(m, s)
+    rp_conv = lambda m, s: replay_conv(m, s)
     for pi, r in enumerate(res):
         if r.outcome != "return":
             run.add(f"C15/awq-tensor-construction-runs/path{pi}", r.hyps, z3.BoolVal(False), "property", inst, {"outcome": repr(r.value)[:300]}, replay=rp)
@@ -324,6 +330,8 @@ def representation(run):
         if back[0] == "raises":
             run.add(f"C15/conversion-back/does-not-raise/path{pi}:{back[1].tname}", r.hyps, z3.BoolVal(False), "property", inst, replay=rp)
             continue
+        cw = r.ps.get("conv_writes", [])
+        run.add(f"C15/converting-back-leaves-the-awq-tensor-untouched/path{pi}", r.hyps, z3.BoolVal(not cw), "property", inst, {"writes": cw[:4]}, replay=rp_conv)
         qb = back[1]
         for nme, f in inv.inv_qbits(qb):
             run.add(f"C15/conversion-back/inv:{nme}/path{pi}", r.hyps, f, "property", inst, replay=rp)
@@ -398,6 +406,40 @@ def replay_layouts(model, seed, which, reorder=False):
             t = torch.randint(0, 16, (n, k), dtype=torch.uint8)
             if not torch.equal(P.unpack(P.pack(t, reorder=reorder), reorder=reorder).to(torch.uint8), t):
                 return {"layout": "v1", "reorder": reorder, "shape": [n, k], "what": "unpack(pack(T)) != T"}
+    return None
+
+
+def _awq_cls():
+    import re
+    P = _cpu_module(AWQP, "optimum.quanto.tensor.qbits.awq.packed")
+    src = open(_REPO + "/" + AWQQ).read().replace("from .packed import AWQPackedTensor, AWQPacking", "")
+    src = "\n".join(ln for ln in src.split("\n") if not re.match(r'\s*assert .*device\.type == "cuda"\s*$', ln))
+    ns = {"AWQPackedTensor": P.AWQPackedTensor, "AWQPacking": P.AWQPacking, "__name__": "optimum.quanto.tensor.qbits.awq.qbits", "__package__": "optimum.quanto.tensor.qbits.awq"}
+    exec(compile(src, AWQQ, "exec"), ns)
+    return ns["AWQBitsTensor"]
+
+
+def replay_conv(model, seed):
+    """Converting the AWQ representation back must not change the AWQ tensor itself (its dequantized values before == after)."""
+    import torch
+    from optimum.quanto import MaxOptimizer, qint4
+    from optimum.quanto.tensor.quantizers import AffineQuantizer
+
+    torch.manual_seed(seed)
+    A = _awq_cls()
+    for (o, i) in ((8, 128), (16, 256), (4, 384)):
+        w = torch.randn(o, i, dtype=torch.float16)
+        sc, zp = MaxOptimizer()(w, bits=4, axis=0, group_size=128)
+        q = AffineQuantizer.apply(w, qint4, 0, 128, sc, zp)
+        a = A(qint4, 0, 128, q.size(), q.stride(), q._data.unpack(), q._scale, q._zeropoint)
+        before = a.dequantize().clone()
+        try:
+            a.qbits_tensor()
+        except Exception:
+            pass
+        after = a.dequantize()
+        if not torch.equal(before, after):
+            return {"what": "AWQBitsTensor.qbits_tensor() changed the AWQ tensor it converts", "shape": [o, i], "max_abs_change": (before.float() - after.float()).abs().max().item()}
     return None
 
 
